@@ -334,6 +334,14 @@ func VerifHarness_C38_wild() {
 	st := verifC38NewStore(d)
 	r := verifC38Remote(st)
 	names := []plumbing.ReferenceName{verifC38HeadA, verifC38HeadB}
+	// RENAME=1: the wildcard renames, refs/heads/* -> refs/heads/x/* (added
+	// after seed C38-1: with an identity wildcard the forward and the reversed
+	// refspec coincide)
+	rnames := names
+	rename := verifrt.Param("RENAME") == 1
+	if rename {
+		rnames = []plumbing.ReferenceName{"refs/heads/x/a", "refs/heads/x/b"}
+	}
 	local := []int{verifrt.Range(-1, n-1), verifrt.Range(-1, n-1)}
 	remote := []int{verifrt.Range(-1, n), verifrt.Range(-1, n)}
 	force := verifrt.Range(0, 1) == 1
@@ -349,7 +357,7 @@ func VerifHarness_C38_wild() {
 			_ = st.SetReference(plumbing.NewHashReference(name, verifC38ID(local[i])))
 		}
 		if remote[i] >= 0 {
-			_ = remoteRefs.SetReference(plumbing.NewHashReference(name, verifC38ID(remote[i])))
+			_ = remoteRefs.SetReference(plumbing.NewHashReference(rnames[i], verifC38ID(remote[i])))
 		}
 	}
 	_ = st.SetReference(plumbing.NewHashReference(verifC38TagT, verifC38ID(0)))
@@ -358,12 +366,15 @@ func VerifHarness_C38_wild() {
 	_ = remoteRefs.SetReference(plumbing.NewHashReference("refs/tags/u", verifC38ID(0)))
 
 	spec := "refs/heads/*:refs/heads/*"
+	if rename {
+		spec = "refs/heads/*:refs/heads/x/*"
+	}
 	if force {
 		spec = "+" + spec
 	}
 	specs := []config.RefSpec{config.RefSpec(spec)}
 	if del {
-		specs = append(specs, config.RefSpec(":"+verifC38HeadB.String()))
+		specs = append(specs, config.RefSpec(":"+rnames[1].String()))
 	}
 	cmds := make([]*packp.Command, 0)
 	err := r.addReferencesToUpdate(specs, verifC38LocalRefs(st), remoteRefs, &cmds, prune, nil)
@@ -377,7 +388,8 @@ func VerifHarness_C38_wild() {
 	var wants []want
 	rejected := false
 	counterpart := false // a remote branch that also exists locally
-	for i, name := range names {
+	for i := range names {
+		name := rnames[i] // commands name the destination
 		old := verifC38ID(remote[i])
 		if local[i] >= 0 {
 			if remote[i] >= 0 {
